@@ -200,10 +200,21 @@ def roundUpGo (r start : Nat) (buf : List Nat) : Nat → List Nat × Nat × Bool
       (buf.set (start + idx) (digitToCharConst (charToValidDigitConst c r + 1) r), idx + 1, false)
     else roundUpGo r start buf idx
 
+/-- `true` once fixes/C14-generic-radix-tie-parity.diff is committed in /repo: the exact-tie test of an even radix looks
+at the parity of the last kept DIGIT instead of its ASCII character -/
+def repoHasTieParityFix : Bool := false
+
+/-- `last & 1 == 0` of `truncate_and_round`: on the character (snapshot) or on the digit value (repaired) -/
+def lastEven (parityFix : Bool) (last r : Nat) : Prop :=
+  (if parityFix then charToValidDigitConst last r else last) % 2 = 0
+
+instance (pf : Bool) (last r : Nat) : Decidable (lastEven pf last r) := by unfold lastEven; infer_instance
+
 /-- `truncate_and_round(buffer, start, end, radix, options)`: new buffer, digit count, carried
 (as of /repo 2de23fc: ALL leading zeros of the window are added to `max_digits` before any comparison, so
 `max_digits < digit_count` below and no byte outside `start..end` is read) -/
-def truncateAndRound (r : Nat) (o : WOpts) (buf : List Nat) (start end_ : Nat) : Res (List Nat × Nat × Bool) :=
+def truncateAndRoundP (pf : Bool) (r : Nat) (o : WOpts) (buf : List Nat) (start end_ : Nat) :
+    Res (List Nat × Nat × Bool) :=
   let digitCount := end_ - start
   match o.maxDigits with
   | none => .ok (buf, digitCount, false)
@@ -221,11 +232,15 @@ def truncateAndRound (r : Nat) (o : WOpts) (buf : List Nat) (start end_ : Nat) :
       else
         let truncated := (buf.drop (start + mx + 1)).take (end_ - (start + mx + 1))
         if r % 2 = 0 then
-          if truncated.all (· = 48) ∧ last % 2 = 0 then .ok (buf, mx, false) else .ok (roundUpGo r start buf mx)
+          if truncated.all (· = 48) ∧ lastEven pf last r then .ok (buf, mx, false) else .ok (roundUpGo r start buf mx)
         else
           match truncated.find? (· ≠ halfway) with
           | none => .ok (buf, mx, false)
           | some c => if c < halfway then .ok (buf, mx, false) else .ok (roundUpGo r start buf mx)
+
+/-- `truncate_and_round` of the code under test -/
+def truncateAndRound (r : Nat) (o : WOpts) (buf : List Nat) (start end_ : Nat) : Res (List Nat × Nat × Bool) :=
+  truncateAndRoundP repoHasTieParityFix r o buf start end_
 
 /-! ## layouts -/
 
@@ -306,6 +321,47 @@ def nonsciText (o : WOpts) (r : Nat) (g : Gen) : Res Text :=
     let buf := if tr.2.2 then 49 :: tr.1 else tr.1
     .ok (nonsciFinish o (buf.take tr.2.1) (g.ints.length + (if tr.2.2 then 1 else 0)))
 
+/-- `write_float_nonscientific` after rounding, REPAIRED tail (fixes/C14-generic-digit-options-min-and-literal.diff):
+the trailing zeros that are trimmed are no longer counted, an all-zero fraction is treated as absent (`"1."` becomes
+`"1"` / `"1.0"`), and the `leading` zeros in front of the first significant digit do not count towards
+`min_significant_digits` -/
+def nonsciFinish2 (leading : Nat) (o : WOpts) (digits : List Nat) (integerLength : Nat) : Text :=
+  let count := digits.length
+  let integerCount := min count integerLength
+  let intPart := digits.take integerCount ++ List.replicate (integerLength - integerCount) 48
+  let fractionCount0 := count - integerLength
+  let fdigits := (digits.drop integerCount).take fractionCount0
+  let zeros := rtrimCount 48 fdigits
+  let body := fdigits.take (fractionCount0 - zeros)
+  let fractionCount := fractionCount0 - zeros
+  let count1 := count - zeros
+  let hi0 := integerLength + 1 + fractionCount0
+  if fractionCount > 0 then
+    let sig := count1 - min leading (count1 - 1)
+    let exact := minExactDigits sig o
+    let padn := if exact > sig then exact - sig else 0
+    ⟨intPart ++ [o.dp] ++ body ++ List.replicate padn 48, max hi0 (integerLength + 1 + fractionCount + padn)⟩
+  else if o.trim then ⟨intPart, hi0⟩
+  else
+    let count2 := count1 + 1
+    let sig := count2 - min leading (count2 - 1)
+    let exact := minExactDigits sig o
+    let padn := if exact > sig then exact - sig else 0
+    ⟨intPart ++ [o.dp, 48] ++ List.replicate padn 48, max hi0 (integerLength + 2 + padn)⟩
+
+/-- `write_float_nonscientific`, REPAIRED window (fixes/C07-generic-radix-positional-truncation.diff): the
+`MAX_DIGIT_LENGTH + 1` digit window starts at the first significant digit (`leading` zeros before it are kept in
+addition); `minFix` selects the repaired tail `nonsciFinish2` -/
+def nonsciTextW (minFix : Bool) (o : WOpts) (r : Nat) (g : Gen) : Res Text :=
+  let total := g.ints.length + g.fracs.length
+  let leading := min (ltrimCount 48 (g.ints ++ g.fracs)) (total - 1)
+  let end_ := min total (leading + maxDigitLength + 1)
+  (truncateAndRound r o g.buf 0 end_).bind fun tr =>
+    if tr.2.2 ∧ g.ints.length ≥ halfSize then .panic else
+    let buf := if tr.2.2 then 49 :: tr.1 else tr.1
+    let il := g.ints.length + (if tr.2.2 then 1 else 0)
+    .ok (if minFix then nonsciFinish2 leading o (buf.take tr.2.1) il else nonsciFinish o (buf.take tr.2.1) il)
+
 /-- `sci_exp = initial_cursor - integer_cursor - zero_count - 1` with
 `zero_count = ltrim_char_count(digits, b'0').min(digits.len() - 1)` (/repo f386e72: a zero keeps one digit) -/
 def sciExpOf (g : Gen) : Int :=
@@ -320,15 +376,31 @@ def layoutText (fmt : Format) (feats : Features) (o : WOpts) (r : Nat) (g : Gen)
   let require := fmt.requiredExponentNotation ∨ outside
   if ¬ fmt.noExponentNotation ∧ require then sciText fmt feats o r g sciExp else nonsciText o r g
 
+/-- `layoutText` with the repaired positional writer -/
+def layoutTextW (minFix : Bool) (fmt : Format) (feats : Features) (o : WOpts) (r : Nat) (g : Gen) : Res Text :=
+  let sciExp := sciExpOf g
+  let minExp := o.negBreak.getD (-5)
+  let maxExp := o.posBreak.getD 9
+  let outside := sciExp < minExp ∨ sciExp > maxExp
+  let require := fmt.requiredExponentNotation ∨ outside
+  if ¬ fmt.noExponentNotation ∧ require then sciText fmt feats o r g sciExp else nonsciTextW minFix o r g
+
 /-- `radix::write_float::<F, FORMAT>(float, bytes, options)` for the non-negative finite pattern `bits`, on a `bytes`
-slice of length `len`: the text written (= `bytes[..returned count]`) or `PANIC`.  `cf`: which back-trace (`backtrace`). -/
-def writeFloat (cf : Bool) (feats : Features) (f : Fmt) (fmt : Format) (o : WOpts) (bits len : Nat) : Res (List Nat) :=
+slice of length `len`: the text written (= `bytes[..returned count]`) or `PANIC`.  `cf`: which back-trace (`backtrace`);
+`wf`: repaired positional digit window; `mf` (only with `wf`): repaired `min_significant_digits` / trimming tail. -/
+def writeFloat (cf : Bool) (feats : Features) (f : Fmt) (fmt : Format) (o : WOpts) (bits len : Nat)
+    (wf : Bool := false) (mf : Bool := false) : Res (List Nat) :=
   (generate cf f fmt.mantissaRadix bits).bind fun g =>
-    (layoutText (effFmt feats fmt) feats o fmt.mantissaRadix g).bind fun t =>
+    ((if wf then layoutTextW mf (effFmt feats fmt) feats o fmt.mantissaRadix g
+      else layoutText (effFmt feats fmt) feats o fmt.mantissaRadix g)).bind fun t =>
       if t.hi > len then .panic else .ok t.text
 
 /-- which round-up back-trace the code under test has: `true` = /repo at or after commit dbb7ae7 (carry fixed),
 `false` = the original snapshot.  The driver runs the model with this value. -/
 def repoHasCarryFix : Bool := true
+/-- `true` once fixes/C07-generic-radix-positional-truncation.diff is committed in /repo -/
+def repoHasWindowFix : Bool := false
+/-- `true` once fixes/C14-generic-digit-options-min-and-literal.diff (applies after the window fix) is committed -/
+def repoHasMinPadFix : Bool := false
 
 end LexVerif.Model.WriteRadix
